@@ -204,14 +204,8 @@ func (e *Eval) hardcoded(fr *Frame, cc *ssa.CallCommon, fn *ssa.Function, args [
 			e.oblige("lock@"+site+"/write-held", "lock", lockProps, cur, eq(h, "(- 1)"), "Unlock requires the write hold", "")
 		}
 		e.lockOrder(fr, st, cur, site, kind, args[0].A, mu)
-		switch kind {
-		case "rlock", "lock":
-			c.Assert(implies(cur, eq(h, "0")))
-		case "runlock":
-			c.Assert(implies(cur, "(>= "+h+" 1)"))
-		case "unlock":
-			c.Assert(implies(cur, eq(h, "(- 1)")))
-		}
+		// (the lock-state obligations above are not assumed afterwards, for
+		// the same reason as callee preconditions: no masking)
 		e.lockEffect(st, kind, mu)
 		return ret()
 	case "sync/atomic.AddInt64", "sync/atomic.AddInt32", "sync/atomic.AddUint32", "sync/atomic.AddUint64":
@@ -305,6 +299,7 @@ func (e *Eval) hardcoded(fr *Frame, cc *ssa.CallCommon, fn *ssa.Function, args [
 		dom, val := e.syncMapComps(args[0].A.Comp)
 		d, v := c.Get(st, dom), c.Get(st, val)
 		key := args[1].T
+		e.ghostCount(st, "$c."+name)
 		switch name {
 		case "(*sync.Map).Load":
 			ok := c.Define(site+".ok", "Bool", sel(d, key))
@@ -362,6 +357,7 @@ func (e *Eval) hardcoded(fr *Frame, cc *ssa.CallCommon, fn *ssa.Function, args [
 		// change it for any buffer (which one is not tracked)
 		c.DeclComp("$gm.pooled", "(Array Int Int)")
 		c.Havoc(st, "$gm.pooled")
+		e.ghostCount(st, "$c.(*sync.Pool).Put")
 		return ret()
 	case "runtime/debug.Stack":
 		return ret(e.havocVal(site, cc.Signature().Results().At(0).Type(), cur))
